@@ -54,7 +54,8 @@ def _case(draw):
     return {'spec': spec, 'label': draw(st.sampled_from(LABELS)),
             'factor': draw(st.sampled_from([1, 2, 2.5, 1e-6])),
             'extras': draw(st.lists(st.sampled_from(['kslabel', 'channel_labels', 'cluster_shanks',
-                                                      'temp_wh']), unique=True, max_size=4)),
+                                                      'subset', 'temp_wh']), unique=True,
+                                    max_size=4)),
             'ncc': draw(st.sampled_from([12, 12, 3, 5])),
             'samedir': draw(st.sampled_from(['plain', 'str', 'dotdot', 'symlink', 'relative'])),
             'second': draw(st.booleans()), 'second_label': draw(st.sampled_from(LABELS)),
@@ -79,6 +80,13 @@ def add_extras(T, extras, n_clusters):
         np.save(d / 'cluster_shanks.npy', np.zeros((n_clusters, 1), dtype=np.int32))
     if 'temp_wh' in extras:
         (d / 'temp_wh.dat').write_bytes(b'\x01\x02' * 50)
+    if 'subset' in extras and T.raw is None:
+        # spike waveforms extracted earlier (the raw data are not available any more)
+        ns, nsw = T.spec['ns'], T.spec['nsw']
+        np.save(d / '_phy_spikes_subset.spikes.npy', np.array([0, ns - 1], dtype=np.int64))
+        np.save(d / '_phy_spikes_subset.channels.npy', np.array([[0, 1], [1, -1]], dtype=np.int32))
+        np.save(d / '_phy_spikes_subset.waveforms.npy',
+                (np.arange(2 * nsw * 2).reshape((2, nsw, 2)) * 0.5).astype(np.float32))
 
 
 def first_dim(path):
@@ -214,8 +222,8 @@ def _check(case):
                 if name == 'temp_wh.dat':
                     require(name not in after, 'temp_wh.dat not deleted', key='temp-wh')
                     continue
-                if name in subset:
-                    continue
+                if name in subset and T.raw is not None:
+                    continue    # extracted again from the raw data (no raw data: kept as they are)
                 require(after.get(name) == h, 'source file %s changed or disappeared' % name,
                         key='source-changed', observed=name)
             added = set(after) - set(before)
